@@ -344,6 +344,8 @@ func checkC08(c *Ctx) {
 			// any other return must be an error exit (a failing call's error)
 			if v.IsNil() {
 				okSched, dSched = false, fmt.Sprintf("the continue step returns nil at %s without scheduling the handler", p.InstrPos(r))
+			} else if rv := retValue(r, 0); !(v.Kind == "global" || nilGuard(p.Guards(r), false, func(x *Sym) bool { return x.V == rv })) {
+				okSched, dSched = false, fmt.Sprintf("the continue step returns %s at %s where it is not known to be an error: a nil there ends the step without scheduling the handler", v, p.InstrPos(r))
 			}
 		}
 	}
